@@ -290,7 +290,7 @@ def run(chk):
     import hy.errors
     import hy.reader.exceptions
     from hy.compiler import hy_compile
-    n = 12000 if thorough else 450
+    n = 5000 if thorough else 450
     chk.rule = ("f-string trees: 0-4 parts, literal runs over plain characters (incl. non-ASCII, quotes, newlines), simple / hex / "
                 "named escapes and doubled braces; fields over 18 expressions with random whitespace, debugging =, conversions "
                 "s r a, format specs with plain text and nested fields to depth 3; + a fixed list of malformed texts; "
